@@ -590,6 +590,13 @@ func (c *handlerCtx) bindReply(header Header) interface{} {
 
 	// unlock: handleReply
 	c.callCmd.mu.Lock()
+	if c.callCmd.hasReply() || !c.callCmd.stat.OK() {
+		// the call has already been completed (e.g. a duplicate reply)
+		c.callCmd.mu.Unlock()
+		c.callCmd = nil
+		Warnf("repeated reply of call cmd: %v", c.input)
+		return nil
+	}
 	c.input.SetServiceMethod(c.callCmd.output.ServiceMethod())
 	c.swap = c.callCmd.swap
 	c.callCmd.inputBodyCodec = c.GetBodyCodec()
